@@ -200,6 +200,10 @@ pub fn check_mi(c: &MiCase, st: &mut Stats) -> Result<(), String> {
     let p = match prepare(&msg) {
         Ok(p) => p,
         Err(e) => {
+            // key texts are generated inside the OpaqueString profile: the key constructors must accept them
+            if let Err(ke) = conv::lib_key(&c.key) {
+                return Err(format!("key constructor refused {:?}: {}", c.key, ke));
+            }
             st.class(&format!("rejected-by-constructor:{}", reject_class(&e)));
             return Ok(());
         }
